@@ -587,6 +587,18 @@ class Scenario:
         cx = Ctx(net, conns)
         cx.scenario = self
         cx.gatt_chars = chars
+        # an application that reacts to the loss of a connection by writing to it (a "goodbye" from inside its
+        # disconnection handler, i.e. during the teardown fan-out): whatever it queues must be gone afterwards too
+        def goodbye(conn):
+            def handler(*_a):
+                try:
+                    conn.send_l2cap_pdu(0x3E, b"goodbye")
+                except Exception:  # refusing the write is fine
+                    pass
+            return handler
+
+        for conn in conns.values():
+            conn.on("disconnection", goodbye(conn))
         self.events.append(_ev("est", c=1))
         self.events.append(_ev("est", c=2))
         await proc.setup(cx)
